@@ -163,9 +163,45 @@ def check_cli(ctx, asms):
             out.oracle_fail("cli-asm-format", {"agp": t["ok"]}, "asm-format AGP -> TPF -> AGP changed more than dropping tags")
 
 
+def check_cli_files(ctx, count):
+    """asm-format with several input files and --output-file: every data line of every input file yields one row in the output"""
+    import fasta_lib as F
+    from click.testing import CliRunner
+    from tola.assembly.scripts.asm_format import cli
+    out, rng = ctx.out, ctx.rng
+    with F.Scratch() as sc:
+        for i in range(count):
+            d = sc.path / f"c05_{i}"; d.mkdir()
+            k = rng.randint(1, 3)
+            texts, nlines = [], 0
+            in_fmt = rng.choice(["agp", "tpf"]); out_fmt = rng.choice(["agp", "tpf"])
+            args = []
+            for j in range(k):
+                a = T.rand_assembly(rng, "both")
+                a["header"] = []
+                for s_ in a["scaffolds"]:
+                    s_["name"] = f"f{j}_" + s_["name"].replace("#", "h")
+                t = T.real_format(a, in_fmt)["ok"]
+                (d / f"in{j}.{in_fmt}").write_text(t)
+                args.append(str(d / f"in{j}.{in_fmt}"))
+                nlines += len([l for l in t.splitlines() if l.strip() and not l.startswith("#")])
+                texts.append(t)
+            outp = d / f"out.{out_fmt}"
+            r = CliRunner().invoke(cli, args + ["-o", str(outp)])
+            inp = {"inputs": texts, "in_fmt": in_fmt, "out_fmt": out_fmt}
+            out.case("cli-files", inp, ("cli-files", k, in_fmt, out_fmt, r.exit_code))
+            if r.exit_code != 0 or not outp.exists():
+                out.oracle_fail("cli-files", inp, f"asm-format failed on well-formed files (exit {r.exit_code})")
+                continue
+            got = len([l for l in outp.read_text().splitlines() if l.strip() and not l.startswith("#")])
+            if got != nlines:
+                out.oracle_fail("cli-files", inp, f"{nlines} data lines in {k} input file(s) yielded {got} rows in the output file (lines silently dropped)")
+
+
 def run(ctx):
     rng = ctx.rng
     n = 8 if ctx.thorough else 1
+    check_cli_files(ctx, 20 * n)
     check_roundtrip(ctx, "wf-both", [T.rand_assembly(rng, "both") for _ in range(300 * n)], "both")
     check_roundtrip(ctx, "wf-agp", [T.rand_assembly(rng, "agp") for _ in range(300 * n)], "agp")
     check_roundtrip(ctx, "loose", [T.rand_assembly(rng, "loose") for _ in range(200 * n)], "loose")
